@@ -204,6 +204,15 @@ def check_a(ck, repo):
                     ok1 = ax is not None and ast.unparse(ax) == "1" and ast.unparse(pos.args[0]) == f"model.decision_path({Xp})[:, {LI}]"
         okl = okl and ok1
     ck.verdict(okl and n_paths >= 1, "C12.a", pl, "columns selected by leaves_index, argmax mapped back through leaves_index", "one index list selects the columns and translates the argmax back", "predict_leaves no longer selects the decision-path columns and translates the argmax back with the same leaves_index")
+    # the utilities are functions of the tree: nothing is stored on (or written into) their arguments
+    from .sem import effects
+
+    eff = effects(repo)
+    mi = repo.modules.get(TS)
+    for f in sorted(repo.functions_of(mi), key=lambda f: f.node.lineno):
+        sm = eff.summaries.get(f.qualname)
+        w = dict(sm.writes) if sm else {}
+        ck.verdict(not w, "C12.a", f, f"{f.name}: arguments only read", "the result is recomputed from the tree given at every call (nothing cached on the model)", f"{f.name} writes its argument(s) {sorted(w)} ({list(w.values())[0] if w else ''}): a value kept on the model survives a refit, so the result no longer describes the fitted tree")
     return n
 
 
@@ -230,6 +239,19 @@ def check_b(ck, repo):
     ptx = ex.text(l.iter.args[0], fi, l)
     node_p = fi.named_params[1]
     ck.verdict(ptx in (want(repo, f"tree_find_path_to_root(tree, {node_p}, parents)", fi, l), want(repo, f"tree_find_path_to_root(tree, {node_p}, parents=parents)", fi, l)), "C12.b", fi, f"path = {ptx[:60]}", "constraints come from the root-to-node path", "path is not the root-to-node path")
+    # the box holds thresholds (float64 in scikit-learn trees): its array must not narrow them
+    rets_ = [p for p in paths(fi) if p.ret not in (None, RAISE)]
+    okdt = bool(rets_)
+    for p in rets_:
+        a = p.ret
+        if isinstance(a, ast.Call) and ast.unparse(a.func) in ("numpy.full", "numpy.empty", "numpy.zeros"):
+            dt = next((ast.unparse(k.value) for k in a.keywords if k.arg == "dtype"), None)
+            if dt is None and ast.unparse(a.func) == "numpy.full" and len(a.args) > 2:
+                dt = ast.unparse(a.args[2])
+            okdt = okdt and dt in (None, "float", "numpy.float64", "'float64'", "numpy.double")
+        else:
+            okdt = False
+    ck.verdict(okdt, "C12.b", fi, "box array holds float64 thresholds", "thresholds are stored as they are in the tree", "the box is stored in a narrower type than the tree's float64 thresholds: a point between a threshold and its rounded value lies in another leaf's box than the one it is routed to")
     ps = block_paths(fi, l.body)
     stop = [p for p in ps if p.ret == BREAK]
     ck.verdict(len(stop) == 1 and stop[0].conds == ((f"{node_p} == {pv}", True),) or len(stop) == 1 and stop[0].conds == ((f"{pv} == {node_p}", True),), "C12.b", fi, f"if {pv} == {node_p}: break", "the node itself contributes no constraint", "the walk does not stop at the node itself")
@@ -414,6 +436,8 @@ WITNESSES = [
     {"name": "leaves-by-threshold-sentinel", "file": _S, "rule": "C12.a", "old": "        if tree.children_left[i] == TREE_LEAF:\n            res.append(i)\n", "new": "        if tree.threshold[i] == -2:\n            res.append(i)\n"},
     {"name": "predict-leaves-no-translate", "file": _S, "rule": "C12.a", "old": "    res = numpy.array([leaves_index[r] for r in res])\n", "new": "    res = numpy.array([r for r in res])\n"},
     {"name": "piecewise-leaf-predicate", "file": "mlinsights/mlmodel/piecewise_estimator.py", "rule": "C12.a", "old": "                if tree.children_left[i] <= i and tree.children_right[i] <= i\n", "new": "                if tree.children_left[i] <= i\n"},
+    {"name": "range-box-float32", "file": _S, "rule": "C12.b", "old": "    res = numpy.full((mx + 1, 2), numpy.nan)\n", "new": "    res = numpy.full((mx + 1, 2), numpy.nan, dtype=numpy.float32)\n"},
+    {"name": "predict-leaves-cached-on-model", "file": _S, "rule": "C12.a", "old": "    leaves = model.decision_path(X)\n    leaves = leaves[:, leaves_index]\n", "new": "    model._leaves_index_ = leaves_index\n    leaves = model.decision_path(X)\n    leaves = leaves[:, leaves_index]\n"},
     {"name": "range-left-lower", "file": _S, "rule": "C12.b", "old": "        if lr:\n            res[fn, 1] = min(res[fn, 1], th) if not numpy.isnan(res[fn, 1]) else th\n        else:\n            res[fn, 0] = max(res[fn, 0], th) if not numpy.isnan(res[fn, 0]) else th\n", "new": "        if lr:\n            res[fn, 0] = max(res[fn, 0], th) if not numpy.isnan(res[fn, 0]) else th\n        else:\n            res[fn, 1] = min(res[fn, 1], th) if not numpy.isnan(res[fn, 1]) else th\n"},
     {"name": "range-upper-max", "file": _S, "rule": "C12.b", "old": "res[fn, 1] = min(res[fn, 1], th)", "new": "res[fn, 1] = max(res[fn, 1], th)"},
     {"name": "range-right-child-flag", "file": _S, "rule": "C12.b", "old": "lr = tree.children_left[p] == path[ind + 1]", "new": "lr = tree.children_right[p] == path[ind + 1]"},
